@@ -24,13 +24,13 @@ NA = {
 CHECKS = {
     "C19": dict(
         engine="cache", category="fault_enumeration", design_ref="DESIGN.md section 4",
-        technique="deterministic simulation with fault injection: real loader threads (one per simulated process) under a seeded baton scheduler; fake remote with per-attempt fault plans; one global simulated clock (sleep, time.time, file mtimes); kill-at-yield-point crashes on real tmpfs; emulated flock; per-process pids incl. equal pids; enumerated crash points, retry table, two-context-switch schedules and dataset pairs, then seeded swarm search; offline-load probe after every mutating step",
-        text="Enumerated: every crash point of 33 base scenarios (alone and with a second loader), the n_retries x failure-pattern x terminal-outcome x {first download, forced refresh} table, every schedule 'A runs i steps, B runs j steps (then is killed, or not), A finishes, B finishes' of two loaders of one dataset (normal / hour-long transfer, refresh, gzip, equal pids), and (thorough) all ordered pairs of the remote datasets. Sampled: 16 000 (quick) to 600 000 (thorough) seeded storms of 1..16 concurrent loaders with URLError/TimeoutError/HTTPError/short/corrupt/cross-served bodies, partitions, stalls, kills, restarts, litter, temp-name collisions. After every file-system-mutating step, kill and exit the cache entry is probed with a real offline load: absent, or exactly the verified data; after the faults stop a fresh and an offline load must succeed. Outside the enumerated sub-spaces this is sampling: a clean batch is evidence, not proof.",
-        note="process death (not power loss) on tmpfs with POSIX rename; threads stand in for processes, so process-global state of the loader (module-level caches) would be shared between simulated processes; CPython refcounting closes the pickle file; genuine named payloads hash to the pinned digests via a hash seam (real figshare files unavailable offline); only flock/lockf are emulated among blocking primitives; NumPy/pickle/tempfile/shutil trusted"),
+        technique="deterministic simulation with fault injection: real loader threads (one per simulated process) under a seeded baton scheduler; fake remote with per-attempt fault plans; one global simulated clock (sleep, time.time, file mtimes); kill-at-yield-point crashes and SIGINT (KeyboardInterrupt unwinding through the clean-up code step by step) on real tmpfs; emulated flock; per-process pids incl. equal pids; enumerated crash points, retry table, two-context-switch schedules and dataset pairs, then seeded swarm search; offline-load probe after every mutating step",
+        text="Enumerated: every crash point and every interrupt point of 33 base scenarios (alone and with a second loader), the n_retries x failure-pattern x terminal-outcome x {first download, forced refresh} table, every schedule 'A runs i steps, B runs j steps (then is killed, or not), A finishes, B finishes' of two loaders of one dataset (normal / hour-long transfer, refresh, gzip, equal pids), and (thorough) all ordered pairs of the remote datasets. Sampled: 12 000 (quick) to 600 000 (thorough) seeded storms of 1..16 concurrent loaders (one in eight a single process making 3..7 loads one after the other, the caller editing every result in place) with URLError/TimeoutError/HTTPError/ContentTooShortError/seven unclassified error kinds/corrupt/cross-served bodies, partitions, stalls, kills, restarts, litter, temp-name collisions. After every file-system-mutating step, kill and exit the cache entry is probed with a real offline load: absent, or exactly the verified data; after the faults stop a fresh and an offline load must succeed. Outside the enumerated sub-spaces this is sampling: a clean batch is evidence, not proof.",
+        note="process death (not power loss) on tmpfs with POSIX rename; threads stand in for processes: the library's process-global state is kept per simulated process (simkit/isolate.py), state inside C extensions would be shared; threads started by the code under test are not simulated (HARNESS-ERROR, not a verdict); CPython refcounting closes the pickle file; genuine named payloads hash to the pinned digests via a hash seam (real figshare files unavailable offline); only flock/lockf are emulated among blocking primitives; NumPy/pickle/tempfile/shutil trusted"),
     "C18": dict(
         engine="registry", category="exploration", design_ref="DESIGN.md section 5",
         technique="fault-free exhaustive configuration sweep inside the simulated network + disk (fake remote, audit-hook file-system log, scratch data home): all documented names x spellings x unpack, all remote datasets into one data home in seeded orders, seeded unknown names, static pairwise distinctness",
-        text="All 95 documented names (parsed from the shipped tables at run time) x 5 spellings x both unpack values, plus the default-data-home case, are loaded through the real load_dataset inside the simulated world; every remote load must download exactly its own file once, cache it under the data home only, return its own payload and be served offline afterwards; after each load the caller's copy is modified in place and the name is requested again; the data home is exercised as absolute / trailing-slash / ~-relative / relative / unset; all remote datasets loaded into one home must each return their own data; URL/digest/slot pairwise distinct; mutated names and every public attribute of the lookup modules must raise ValueError. Exhaustive over names and flags; seeded for mixed spellings, load orders and unknown names.",
+        text="All 95 documented names (parsed from the shipped tables at run time) x 5 spellings x both unpack values, plus the default-data-home case, are loaded through the real load_dataset inside the simulated world; every remote load must download exactly its own file once, cache it under the data home only, return its own payload and be served offline afterwards; after each load the caller's copy is modified in place and the name is requested again; the data home is exercised as absolute / trailing-slash / ~-relative / relative / below parents that do not exist yet / with HOME absent from the environment / unset; all remote datasets loaded into one home must each return their own data; URL/digest/slot pairwise distinct, and every loader's remote file name must be the repository file its table row documents; mutated names and every public attribute of the lookup modules must raise ValueError. Exhaustive over names and flags; seeded for mixed spellings, load orders and unknown names.",
         note="payloads are synthetic (one distinct body per URL); the pinned digests themselves cannot be validated offline; bundled CSVs are compared with an independent pure-Python parse"),
     "C08": dict(
         engine="weaver-c08", category="exploration", design_ref="DESIGN.md section 6",
